@@ -68,8 +68,6 @@ def homomorphism(h, which='sl2_to_so21', shape=()):
     A = _mat(h, 'A', n, cplx, shape)
     B = _mat(h, 'B', n, cplx, shape)
     if needs_inv:
-        if shape:
-            raise ValueError("adjoint maps are unit-only")
         _nonsingular(h, A)
         _nonsingular(h, B)
     fa, fb = f(A.copy()), f(B.copy())
@@ -119,3 +117,33 @@ def killing(h, n=2):
     Ad = lie.sln_adjoint(A)
     K = lie.sln_killing_form(n)
     h.eq(f"Ad^T K Ad = K (sl{n})", Ad.T @ K @ Ad, K)
+
+
+def o_to_pgl_roundtrip(h, chart=0, sign=1):
+    """o_to_pgl recovers a 2x2 matrix of determinant one (sign=1) from its image in O(2,1), up to sign"""
+    a_, b_, c_ = h.var('a'), h.var('b'), h.var('c')
+    if chart == 0:
+        h.assume(a_ != 0, 'chart a != 0')
+        a, b, c = a_, b_, c_
+        d = (sign + b * c) / a
+    else:
+        h.assume(b_ != 0, 'chart a = 0')
+        a, b, d = h.const(0) * a_, b_, c_
+        c = -sign / b
+    A = np.empty((2, 2), dtype=object if h.is_sym() else float)
+    A[0, 0], A[0, 1], A[1, 0], A[1, 1] = a, b, c, d
+    R = lie.sl2_to_so21(A.copy())
+    Bm = lie.o_to_pgl(R)
+    if h.is_sym():
+        same = (Bm[0, 0] == a) & (Bm[0, 1] == b) & (Bm[1, 0] == c) & (Bm[1, 1] == d)
+        neg = (Bm[0, 0] == -a) & (Bm[0, 1] == -b) & (Bm[1, 0] == -c) & (Bm[1, 1] == -d)
+        h.holds("o_to_pgl(sl2_to_so21(A)) = +-A", same | neg)
+        # what the code actually computes (an automorphism of SL(2) applied to A: conjugation by the coordinate swap)
+        same2 = (Bm[0, 0] == d) & (Bm[0, 1] == c) & (Bm[1, 0] == b) & (Bm[1, 1] == a)
+        neg2 = (Bm[0, 0] == -d) & (Bm[0, 1] == -c) & (Bm[1, 0] == -b) & (Bm[1, 1] == -a)
+        h.holds("o_to_pgl(sl2_to_so21(A)) = +-(swap-conjugate of A)", same2 | neg2)
+    else:
+        Bf = np.asarray(Bm, dtype=float)
+        h.holds("o_to_pgl(sl2_to_so21(A)) = +-A", bool(np.allclose(Bf, A, atol=1e-7) or np.allclose(Bf, -A, atol=1e-7)))
+        S = A[::-1, ::-1]
+        h.holds("o_to_pgl(sl2_to_so21(A)) = +-(swap-conjugate of A)", bool(np.allclose(Bf, S, atol=1e-7) or np.allclose(Bf, -S, atol=1e-7)))
